@@ -26,7 +26,9 @@ EXPLANATION = (
     '(splice_fd_in) the operation must mark that position itself — known finding K6 for splice_to; (R5) '
     'decoders take the count / buffer id from the OpReturn of this completion; (R6/R7) OpenOptions and '
     'socket-option constants; (R8) returned socket addresses are decoded field by field the way they are '
-    'encoded (C16.R1). That the kernel executes a request like the system call would is not decided.'
+    'encoded (C16.R1); (R9/R9b) returned metadata: accessor <-> statx field table, signed statx timestamps '
+    'converted without losing the sign, FileType/Permissions/MetadataInterest bits vs <linux/stat.h>. That the '
+    'kernel executes a request like the system call would is not decided.'
 )
 NOT_DECIDED = "kernel-side semantics of each request; value conversions (timestamps etc.) for all inputs"
 ASSUMPTIONS = ["abi/sqe_table.json transcribes io_uring_enter(2) correctly", "/usr/include/linux/io_uring.h matches the targeted kernel ABI for opcodes <= 48"]
